@@ -86,12 +86,13 @@ Proof. exact unknown_ascii. Qed.
 (* ---- an unknown bare upper-case word ----
    unknown_word ls w r1 ln: w is a complete word starting with a capital (r1 does not continue it), not End.. / END..,
    not System / SYSTEM / PlayFrom., not a system function, not a variable of ls, not followed by ++, --, and (after
-   blanks) not by '=' or ".s(".  Then one "Syntax Error" entry naming w, no token; the word and the blanks (and
-   /* */ comments) after it are consumed. *)
+   blanks) not by '=' or ".s(".  Then one "Syntax Error" entry naming w WITH THE LINE OF THE WORD (ln, also when a
+   /* */ comment with line breaks follows the word: repo fix), no token; the word and the blanks (and /* */ comments)
+   after it are consumed. *)
 Theorem C19_unknown_word_step : forall f n ls (c : Z) (w' r1 : list Z) ln h acc,
   unknown_word ls (zen2han c :: w') r1 ln = true ->
   LOOP f (S n) ls (c :: w' ++ r1) ln h acc
-  = LOOP f n (read_error_cmd ls (fst (skip_space r1 ln)) (snd (skip_space r1 ln)) (zen2han c :: w'))
+  = LOOP f n (read_error_cmd ls (fst (skip_space r1 ln)) ln (zen2han c :: w'))
          (fst (skip_space r1 ln)) (snd (skip_space r1 ln)) h acc.
 Proof. exact unknown_word_step. Qed.
 Theorem C19_syntax_error_entry : forall ls s ln w, zlen (lx_logs ls) < SAKURA_MAX_LOGS ->
